@@ -27,8 +27,9 @@ RULE = ("E1: left documents = every document <= 3 nodes (no booleans) plus "
         "left document untouched. Non-trivial = >= 1 target below the root "
         "whose merge changes it, or several targets, or a created path; "
         "distinct by (L, path, R, policy).")
-ASSUMPTIONS = ["per-path rules are not combined with --mergeat here (C05 "
-               "covers rules at the root)",
+ASSUMPTIONS = ["per-path rules combined with --mergeat are exercised for "
+               "single existing targets only (rule on the merge point itself "
+               "and on its child a)",
                "null targets and C05's Unspecified clashes are skipped and "
                "counted"]
 EXHAUSTIVE = {"quick": False, "thorough": False}
@@ -194,9 +195,17 @@ def check_case(ltext, klass, segs, rspec, pol, res):
         return
     args = SimpleNamespace(hashes=pol.hashes, arrays=pol.arrays, aoh=pol.aoh,
                            sets=pol.sets, anchors="stop", mergeat=ptext)
+    kw = {}
+    if pol.rules:
+        # per-path rules are written against the LEFT document: the merge
+        # point itself, or a path beneath it
+        kw["rules"] = {ptext + "".join("/" + k for k in rel): v
+                       for rel, v in pol.rules.items()}
+        res.label("rules:" + ",".join(sorted(
+            "target" if not rel else "beneath" for rel in pol.rules)))
     try:
         merger = Merger(gdocs.logger(), ldoc,
-                        MergerConfig(gdocs.logger(), args))
+                        MergerConfig(gdocs.logger(), args, **kw))
         merger.merge_with(rdoc)
         got = "ok"
     except MergeException:
@@ -269,6 +278,16 @@ def run_shard(shard):
                 pol = c05.policy_for(n * 13 + ri, with_rules=False)
                 check_case(ltext, klass, [tuple(s) for s in segs], rspec, pol,
                            res)
+                if klass == "existing" and (n + shard["offset"]) % 3 == 0:
+                    # the same merge with a per-path rule naming the merge
+                    # point (or its child a) that overrides the option
+                    k = (n // 3) % 4
+                    rpol = c05.policy_for(n * 13 + ri, with_rules=False)
+                    rpol.rules = [{(): "left"}, {(): "right"},
+                                  {("a",): "left"},
+                                  {(): "right", ("a",): "left"}][k]
+                    check_case(ltext, klass, [tuple(s) for s in segs], rspec,
+                               rpol, res)
     return res
 
 
@@ -278,6 +297,8 @@ def replay(case):
     from vp.model import pathast
     p = case["policy"]
     pol = mm.Policy(p["hashes"], p["arrays"], p["aoh"], p["sets"])
+    pol.rules = {tuple(x for x in k.split("/") if x): v
+                 for k, v in p.get("rules", {}).items()}
     segs = pathast.from_parsed(YAMLPath(case["mergeat"]).escaped)
     rdoc, _ = gdocs.load(case["rhs"])
     rspec = _spec_of(rdoc)
